@@ -883,7 +883,12 @@ func (env *Environment) runTasksAsHooks(hooksToTrigger task.Tasks) (errorMap map
 						continue
 					}
 
-					hookTimers[tid].Stop()
+					timer, hasTimer := hookTimers[tid]
+					if !hasTimer {
+						// the hook already timed out or its termination was already handled, nothing left to collect
+						continue
+					}
+					timer.Stop()
 					delete(hookTimers, tid)
 
 					if evt.ExitCode != 0 {
